@@ -745,6 +745,17 @@ def _cone_space(ctx, adt, ms, r_same, r_range):
 
 # ---------------------------------------------------------------------------------------------------------------------
 # C11.accept - interval spaces: the value enforce_bounds leaves behind is accepted by satisfies_bounds
+def _all_state_stores(fn, param=2):
+    out = []
+    for bi, blk in enumerate(fn.blocks):
+        if blk['cleanup']:
+            continue
+        for si, st in enumerate(blk['stmts']):
+            if st['k'] == 'assign' and st['place']['l'] == param and st['place']['p'] and st['place']['p'][0] == 'deref':
+                out.append((bi, si, None, None))
+    return out
+
+
 def _final_state_stores(fn, param=2):
     """stores into *param (whole, or its fields) from which a return is reachable without another such store:
     [(block, idx, field name or None, value terms)]"""
@@ -796,6 +807,7 @@ def _accept(ctx, prim):
         # ---- what enforce_bounds leaves
         left = []
         probs = []
+        all_stores = _all_state_stores(fe)
         for (b, i, f, v) in _final_state_stores(fe):
             vals = v if f is not None else fe._field(v, 'value')
             for n in strip_clone(vals):
@@ -803,8 +815,21 @@ def _accept(ctx, prim):
                 if n[0] == 'field' and len(rd) == 1 and rd[0][0] == n and rd[0][1] is None:
                     left.append(('lower' if rd[0][2] == '0' else 'upper', b))
                 elif f is None:
-                    # whole-state canonicalisation: must be followed by the early return on the check (C11.enforce)
-                    continue
+                    # whole-state canonicalisation: what it stores is left behind only through the accepting edge of the
+                    # bounds check made on the state afterwards (canonicalising *after* the test leaves a value no test
+                    # has seen: wrapping is not exact and maps +pi to -pi)
+                    te, _fe, _sb = fe.bool_edges(lambda m: m[0] == 'call' and m[1] == SS + 'satisfies_bounds' and len(m[2]) == 2 and
+                                                 bool(m[2][1]) and all(q[0] == 'param' and q[1] == 2 for q in m[2][1]))
+                    others = frozenset(b2 for (b2, _i2, _f2, _v2) in all_stores if b2 != b)
+                    reach = fe.reachable_multi(fe.succs(b), removed=frozenset(te), stop=others) if fe.succs(b) else set()
+                    rets = set(fe.return_blocks())
+                    bad_ = b in rets or any(x in rets and x not in others for x in reach)
+                    r.inst('%s: the canonicalised state stored at %s is left behind only through the accepting edge of the bounds check' % (
+                        adt.rsplit('::', 1)[1], fe.loc(b, i)), ok=not bad_, site=fe.loc(b, i))
+                    if bad_:
+                        probs.append('enforce_bounds can return with the state it stored at %s although no bounds check accepted that value '
+                                     'afterwards (the state is recomputed after, or without, the test)' % fe.loc(b, i))
+                    break
                 else:
                     probs.append('enforce_bounds can leave the value %s, which is neither a stored bound nor a value the check has accepted' % fmt_terms(T(n))[:60])
         if not left and not probs:
